@@ -15,6 +15,8 @@ import (
 type scaleWorld struct {
 	shared *mocker.Builder
 	fresh  map[int]*mocker.Builder
+	held   map[string]*mocker.DefMocker // the handle of the latest lookup, per builder and target (used again for Apply only:
+	// a bare Return through a handle that holds a Return stub extends it - Goom.tla / C05)
 }
 
 func (w *scaleWorld) Name() string { return "scale" }
@@ -22,6 +24,7 @@ func (w *scaleWorld) Begin() {
 	theImage()
 	w.shared = mocker.Create()
 	w.fresh = map[int]*mocker.Builder{}
+	w.held = map[string]*mocker.DefMocker{}
 }
 
 // maskIdx: the 1-based indices at which a membership mask (sequence of booleans) is true
@@ -36,12 +39,21 @@ func maskIdx(v interface{}) []int {
 	return out
 }
 
-func scaleMock(b *mocker.Builder, i int, kind string, id int) {
+func (w *scaleWorld) mock(b *mocker.Builder, key string, i int, kind, via string, id int) {
 	f := fn.Scale[i-1]
 	if kind == "apply" {
-		b.Func(f).Apply(func(a int) int { return id*100000 + i*100 + a })
+		var h *mocker.DefMocker
+		if via == "held" && w.held[key] != nil {
+			h = w.held[key]
+		} else {
+			h = b.Func(f)
+			w.held[key] = h
+		}
+		h.Apply(func(a int) int { return id*100000 + i*100 + a })
 	} else {
-		b.Func(f).Return(id*100000 + i*100 + 7)
+		h := b.Func(f)
+		w.held[key] = h
+		h.Return(id*100000 + i*100 + 7)
 	}
 }
 
@@ -51,14 +63,14 @@ func (w *scaleWorld) Do(st Step) string {
 		switch st.Str("op") {
 		case "MockShared":
 			for _, i := range maskIdx(st["is"]) {
-				scaleMock(w.shared, i, st.Str("kind"), id)
+				w.mock(w.shared, fmt.Sprint("s", i), i, st.Str("kind"), st.Str("via"), id)
 			}
 		case "MockFresh":
 			for _, i := range maskIdx(st["is"]) {
 				if w.fresh[i] == nil {
 					w.fresh[i] = mocker.Create()
 				}
-				scaleMock(w.fresh[i], i, st.Str("kind"), id)
+				w.mock(w.fresh[i], fmt.Sprint("f", i), i, st.Str("kind"), st.Str("via"), id)
 			}
 		case "CancelShared":
 			for _, i := range maskIdx(st["is"]) {
